@@ -655,6 +655,9 @@ Loop:
 				if !ok {
 					return d.newError(tok.Pos(), "invalid %v field value: %v", genid.Any_TypeUrl_field_fullname, tok.RawString())
 				}
+				if !utf8.ValidString(typeURL) {
+					return d.newError(tok.Pos(), "contains invalid UTF-8")
+				}
 				seenTypeUrl = true
 
 			case genid.Any_Value_field_name:
